@@ -16,7 +16,10 @@ CF="-g -O1 -fsanitize=address,undefined -fno-sanitize-recover=all -fno-omit-fram
 pids=""
 for f in $REPO/libscpi/src/*.c $HERE/h_*.c; do
   o="$OUT/$(basename "$f" .c).o"
-  ( gcc $CF -w -c "$f" -o "$o" ) &
+  EXTRA=""
+  # utils.c: file-local functions (scpi_ecvt …) are made visible to the harness; nothing else changes
+  case "$f" in */libscpi/src/utils.c) EXTRA="-Dstatic=" ;; esac
+  ( gcc $CF $EXTRA -w -c "$f" -o "$o" ) &
   pids="$pids $!"
 done
 for p in $pids; do wait $p || exit 1; done
